@@ -421,7 +421,23 @@ def r11i(ctx):
     f = repo.func("Container._xml_content")
     cfg = cfg_of(f)
     reps = [c for c in walk_no_nested(f.node) if isinstance(c, ast.Call) and call_name(c) == "replace" and len(c.args) == 2 and enclosing_loops(c)]
+    # the encoded copy takes the place of the image: a remove() followed by append()/insert() puts it somewhere else among the children of its frame
+    # (after svg:title / svg:desc), so the flat XML orders the frame's children differently from every other packaging
+    enc_calls = [c for c in walk_no_nested(f.node) if isinstance(c, ast.Call) and call_name(c) == "_encoded_image" and enclosing_loops(c)]
+    enc_loops = []
+    for c in enc_calls:
+        if enclosing_loops(c)[0] not in enc_loops:
+            enc_loops.append(enclosing_loops(c)[0])  # the innermost loop: one iteration per image
+    for lp in enc_loops:
+        moved = [c for c in ast.walk(lp) if isinstance(c, ast.Call) and call_name(c) in ("remove", "append", "insert", "addnext", "addprevious", "extend")]
+        ctx.instance("R11i", f"{f.file}:{f.ident}", "the encoded image is put in the place of the image (replace), not moved", ok=not moved, nontrivial=True, line=lp.lineno)
+        for c in moved[:1]:
+            ctx.report("R11i", f, c, norm(c, 60),
+                       f"the flat-XML writer takes the image out and re-attaches its encoded copy with `{call_name(c)}()` instead of replacing it in place: among the children of a "
+                       f"frame that also holds svg:title / svg:desc the image changes position, so the flat XML differs from the zip and folder saves in element order")
     if not reps:
+        if enc_loops and any(True for lp in enc_loops for c in ast.walk(lp) if isinstance(c, ast.Call) and call_name(c) in ("remove", "append", "insert")):
+            return
         raise AnalysisError("R11i: no replace() inside a loop in Container._xml_content")
     for c in reps:
         lp = enclosing_loops(c)[0]
@@ -440,6 +456,40 @@ def r11i(ctx):
             ctx.report("R11i", f, c, norm(c, 60),
                        "the flat-XML writer can hand one and the same new node to several replace() calls: lxml moves the node, so every frame but the last loses its image "
                        "and the flat XML no longer has the element structure the zip and folder packagings have")
+
+
+def r11k(ctx):
+    """A parsed part stays the part.
+
+    Once an XmlPart has parsed its bytes, the tree is the document: edits go into it, and a pretty save derives indented bytes *from* it
+    and stores them in the container (R11g).  If the part ever drops its tree and parses the container's bytes again, it parses those
+    indented bytes — the document in memory has been changed by saving, and a plain save after a pretty one differs from a plain save
+    alone.  Rule: in XmlPart the tree attribute is assigned a parse result only under `<tree> is None`, and is never reset to None
+    outside the constructor.
+    """
+    repo = ctx.repo
+    ctx.rule("R11k", "XmlPart parses its bytes once: the tree is (re)assigned only while it is None, never discarded", floor=1)
+    c = repo.cls("XmlPart")
+    n = 0
+    for name, fs in sorted(c.methods.items()):
+        f = fs[0]
+        for a in walk_no_nested(f.node):
+            if not (isinstance(a, ast.Assign) and any(isinstance(t, ast.Attribute) and t.attr.endswith("__tree") and isinstance(t.value, ast.Name) and t.value.id == "self" for t in a.targets)):
+                continue
+            if name == "__init__" or name == "clone" or f.kind == "getter" and name == "clone":
+                continue
+            n += 1
+            is_none = isinstance(a.value, ast.Constant) and a.value.value is None
+            guarded = any(pol and isinstance(t, ast.Compare) and isinstance(t.ops[0], ast.Is) and isinstance(t.left, ast.Attribute) and t.left.attr.endswith("__tree")
+                          and isinstance(t.comparators[0], ast.Constant) and t.comparators[0].value is None for t, pol in structural_guards(a, stop=f.node))
+            ok = guarded and not is_none
+            ctx.instance("R11k", f"{f.file}:{f.ident}", f"`{norm(a, 40)}` " + ("fills an empty slot" if ok else "discards or overwrites a parsed tree"), ok=ok, nontrivial=True, line=a.lineno)
+            if not ok:
+                ctx.report("R11k", f, a, norm(a, 60),
+                           f"{f.ident} " + ("resets the parsed tree" if is_none else "re-parses over a tree that may exist") + f" (`{norm(a, 40)}`): the next access parses whatever bytes the "
+                           f"container holds — after an indented save those are the indented bytes, so saving has changed the document in memory and later saves write other content")
+    if n == 0:
+        raise AnalysisError("R11k: XmlPart no longer assigns its tree lazily")
 
 
 def r11j(ctx):
@@ -486,6 +536,7 @@ def run(ctx):
     r11h(ctx)
     r11i(ctx)
     r11j(ctx)
+    r11k(ctx)
     # two saves write the same content only if saving never re-reads a part that is already in memory (rule shared with C03)
     from .c03 import r03a
     r03a(ctx)
@@ -497,6 +548,11 @@ _CT = "src/odfdo/container.py"
 _XP = "src/odfdo/xmlpart.py"
 _DOC = "src/odfdo/document.py"
 SEEDS = [
+    Seed("XmlPart drops its tree when the container holds other bytes", "fault", _XP,
+         "        if self.__tree is None:\n            part = self.container.get_part(self.part_name)",
+         "        if self.__tree is not None and self.__root is None and self.container.get_part(self.part_name) is not getattr(self, \"_src\", None):\n            self.__tree = None\n        if self.__tree is None:\n            part = self.container.get_part(self.part_name)\n            self._src = part", "R11k"),
+    Seed("flat XML removes the image and appends the encoded copy", "fault", _CT,
+         "                        elem.getparent().replace(elem, encoded)", "                        frame = elem.getparent()\n                        frame.remove(elem)\n                        if encoded is not None:\n                            frame.append(encoded)", "R11i"),
     Seed("the indenter no longer tests the kind of node", "fault", _CT,
          "    if not isinstance(elem.tag, str):\n        # comment or processing instruction: nothing to indent\n        return elem\n", "", "R11j"),
     Seed("flat XML caches the encoded image element per href", "fault", _CT,
